@@ -125,7 +125,23 @@ pub fn check_bytes(bytes: &[u8]) -> CaseResult {
                 return Err(Fail::new("tiling", format!("{}: values cover bytes up to {at}, the message has {}", desc(), bytes.len())));
             }
         }
-        for i in 0..n {
+        // All indices for short messages; for long ones the ends, every power-of-two
+        // boundary +-1 and a stride (iter().nth(i) is linear).
+        let indices: Vec<usize> = if n <= 64 {
+            (0..n).collect()
+        } else {
+            let mut v: Vec<usize> = (0..8).chain(n - 8..n).collect();
+            let mut p = 16usize;
+            while p < n + 2 {
+                v.extend([p.wrapping_sub(2), p - 1, p, p + 1].into_iter().filter(|i| *i < n));
+                p *= 2;
+            }
+            v.extend((0..n).step_by(1 + n / 24));
+            v.sort_unstable();
+            v.dedup();
+            v
+        };
+        for i in indices {
             let g = view.get(i).map(|(t, v)| (t.value(), v.to_vec()));
             let it = view.iter().nth(i).map(|(t, v)| (t.value(), v.to_vec()));
             let tv = view.get_value(i).map(|v| (view.tags()[i].value(), v.to_vec()));
@@ -145,10 +161,19 @@ pub fn check_bytes(bytes: &[u8]) -> CaseResult {
             }
         }
         // Tag lookup.
-        let mut probe: Vec<u32> = pairs.iter().map(|p| p.0).collect();
-        probe.extend(pairs.iter().map(|p| p.0.wrapping_add(1)));
-        probe.extend(pairs.iter().map(|p| p.0.wrapping_sub(1)));
+        let stride = 1 + n / 48;
+        let mut probe: Vec<u32> = pairs.iter().step_by(stride).map(|p| p.0).collect();
+        probe.extend(pairs.iter().step_by(stride).map(|p| p.0.wrapping_add(1)));
+        probe.extend(pairs.iter().step_by(stride).map(|p| p.0.wrapping_sub(1)));
+        // ... and the tags around every power-of-two position.
+        let mut p2 = 16usize;
+        while p2 < n + 2 {
+            probe.extend([p2.wrapping_sub(2), p2 - 1, p2, p2 + 1].into_iter().filter(|i| *i < n).map(|i| pairs[i].0));
+            p2 *= 2;
+        }
         probe.extend([0, 1, u32::MAX]);
+        probe.sort_unstable();
+        probe.dedup();
         for t in probe {
             let stored: Vec<&Vec<u8>> = pairs.iter().filter(|p| p.0 == t).map(|p| &p.1).collect();
             match view.find(t) {
@@ -203,14 +228,17 @@ pub fn check_bytes(bytes: &[u8]) -> CaseResult {
 
 fn shaped() -> impl Strategy<Value = Case> {
     // Start from a consistent message of n values, then perturb.
-    (
-        prop_oneof![12 => 0usize..13, 1 => 13usize..200],
-        proptest::collection::vec(prop_oneof![3 => Just(0u16), 4 => 1u16..6, 1 => 1u16..40], 200),
-        proptest::collection::vec(prop_oneof![5 => 0u32..5, 2 => 0u32..64, 1 => any::<u32>()], 200),
-        0u8..16,
-        any::<u32>(),
-        proptest::option::weighted(0.25, crate::engine::bytespec::cut()),
-    )
+    prop_oneof![12 => 0usize..13, 1 => 13usize..200, 1 => prop_oneof![250usize..270, 500usize..530, 1000usize..1100, 200usize..1100]]
+        .prop_flat_map(|n| {
+            (
+                Just(n),
+                proptest::collection::vec(prop_oneof![3 => Just(0u16), 4 => 1u16..6, 1 => 1u16..40], n.max(1)),
+                proptest::collection::vec(prop_oneof![5 => 0u32..5, 2 => 0u32..64, 1 => any::<u32>()], n.max(1)),
+                0u8..16,
+                any::<u32>(),
+                proptest::option::weighted(0.25, crate::engine::bytespec::cut()),
+            )
+        })
         .prop_map(|(n, lens, mut tags, perturb, r, truncate)| {
             tags.truncate(n);
             tags.sort_unstable();
@@ -223,7 +251,18 @@ fn shaped() -> impl Strategy<Value = Case> {
             }
             let mut payload: u32 = lens.iter().map(|l| *l as u32).sum();
             let mut declared = n as u32;
-            let pick = |len: usize| if len == 0 { 0 } else { (r as usize) % len };
+            // Positions: uniform, or (half of the time, for long arrays) just before / at a power of two.
+            let pick = |len: usize| {
+                if len == 0 {
+                    0
+                } else if len > 40 && r & 1 == 1 {
+                    let k = 5 + ((r >> 1) as usize % 6); // 32 .. 1024
+                    let boundary = (1usize << k).saturating_sub(1 + ((r >> 8) as usize % 2));
+                    boundary.min(len - 1)
+                } else {
+                    (r as usize) % len
+                }
+            };
             match perturb {
                 0..=5 => {}
                 6 => {
@@ -353,7 +392,7 @@ fn replay(_ctx: &Ctx, _group: &str, case: &Value) -> CaseResult {
 pub fn def() -> PropDef {
     PropDef {
         id: "C12",
-        rule: "shaped: start from a consistent header for N in 0..12 values (N up to 199 in one case out of 13) (lengths 0 common, tags from a small pool so that equal tags occur) and apply one perturbation: swap two offsets, swap two tags, put the last offset at / just beyond the payload, shorten or lengthen the payload, declare N+1/N+2/N-1 or a huge N (2^28..2^32-1), an offset near u32::MAX, all tags equal; optionally truncate at any length. raw: short arbitrary byte strings. truncate-every-length: every prefix of five valid messages. small-word-strings: every string of up to 6 (8) little-endian words over {0,1,2,3,u32::MAX} followed by 0..3 bytes. Oracle: new never panics and accepts iff an independent validator does; on accepted views no accessor panics for indices 0..N+2 and usize::MAX-1, usize::MAX; values for 0..N tile the bytes after the 8N-byte header (checked by address); get(i), iter().nth(i), (tags()[i], get_value(i)) agree and equal the reference parse; every index >= N gives None from get, get_value and iter; find / find_tag agree with the stored tags; tags_match_exactly is true for the tags and false for a longer, shorter or perturbed list. Non-trivial: accepted with N in {0,1} or with equal adjacent tags or offsets, or rejected by a check other than the 4-byte minimum. Distinct: hash of the serialised case / by enumeration.",
+        rule: "shaped: start from a consistent header for N in 0..12 values (N up to 1100 in two cases out of 14, with the perturbed position then biased to power-of-two boundaries) (lengths 0 common, tags from a small pool so that equal tags occur) and apply one perturbation: swap two offsets, swap two tags, put the last offset at / just beyond the payload, shorten or lengthen the payload, declare N+1/N+2/N-1 or a huge N (2^28..2^32-1), an offset near u32::MAX, all tags equal; optionally truncate at any length. raw: short arbitrary byte strings. truncate-every-length: every prefix of five valid messages. small-word-strings: every string of up to 6 (8) little-endian words over {0,1,2,3,u32::MAX} followed by 0..3 bytes. Oracle: new never panics and accepts iff an independent validator does; on accepted views no accessor panics for indices 0..N+2 and usize::MAX-1, usize::MAX; values for 0..N tile the bytes after the 8N-byte header (checked by address); get(i), iter().nth(i), (tags()[i], get_value(i)) agree and equal the reference parse; every index >= N gives None from get, get_value and iter; find / find_tag agree with the stored tags; tags_match_exactly is true for the tags and false for a longer, shorter or perturbed list. Non-trivial: accepted with N in {0,1} or with equal adjacent tags or offsets, or rejected by a check other than the 4-byte minimum. Distinct: hash of the serialised case / by enumeration.",
         assumptions: &["refimpl/tlv_ref.rs is the reference validator (written from the crate documentation, checked against its example)"],
         exhaustive_note: Some("truncate-every-length and small-word-strings: complete enumerations"),
         shards: |t: Tier| t.pick(8, 16),
